@@ -440,6 +440,45 @@ inline int worker_main(
     return st.failures.empty() && ok ? 0 : 1;
 }
 
+// ---------------------------------------------------------------------------
+// libFuzzer entry shared by the small engines (E4, E5, E6): the bytes drive
+// the same generators as rapidcheck does, the same oracle decides; a failing
+// case is written as a replay file before trapping.
+
+inline int fuzz_one(
+    const std::uint8_t* data, std::size_t size, std::vector<Property>& table,
+    const char* engine, int max_size = 60) {
+    BytesChoice ch(data, size);
+    auto& prop = table[ch.draw(std::uint32_t(table.size()))];
+    int gsize = 1 + int(ch.draw(std::uint32_t(max_size)));
+    json c = prop.generate(ch, gsize);
+    if (const char* dump = getenv("VERIF_FUZZ_DUMP")) {
+        // triage of a crashing input: record the decoded case before running
+        save_json(dump, {{"property", prop.id},
+                         {"variant", prop.variant},
+                         {"engine", engine},
+                         {"case", c},
+                         {"message", "crash"},
+                         {"crash", true}});
+    }
+    Outcome o = prop.run(c);
+    if (!o.ok && o.excluded.empty()) {
+        json fl = {{"property", prop.id},
+                   {"variant", prop.variant},
+                   {"engine", engine},
+                   {"case", c},
+                   {"message", o.message}};
+        const char* dir = getenv("VERIF_FUZZ_OUT");
+        std::string path = std::string(dir ? dir : ".") + "/fuzz-failure-" +
+            std::to_string(o.hash) + ".json";
+        save_json(path, fl);
+        fprintf(stderr, "FUZZ-FAILURE %s %s\n", path.c_str(),
+                o.message.c_str());
+        __builtin_trap();
+    }
+    return 0;
+}
+
 } // namespace vf
 
 #endif
